@@ -694,6 +694,10 @@ func obligationChunksLight(ob *Obligation, prelude string) []*Script {
 }
 
 func (d *Discharger) discharge(ob *Obligation) {
+	if ob.Kind == "exists" && ob.Result != nil {
+		ob.Result.Status = "failed"
+		return
+	}
 	if ob.Failure != "" {
 		ob.Result = &ObResult{Status: "failed", Answer: "undecided: " + ob.Failure}
 		return
